@@ -369,6 +369,43 @@ impl Suite for Values {
             }
         };
         let mut dup_seen = false;
+        // ---- a second collection that undergoes the same operations with *borrowed* names that are
+        // slices of shared buffers: a name that is a prefix of another one starts at the same address
+        // (as `&name[..k]` does for field names cut out of one string). Names are equal when their
+        // text is equal, wherever they are stored.
+        let mut all_names: Vec<String> = vec![];
+        for line in lines {
+            let mut t = Toks::new(line);
+            if let (Some("v"), Some(op)) = (t.next(), t.next()) {
+                match op {
+                    "insert" | "get" => all_names.extend(t.xs()),
+                    "extend" | "collect" | "json" | "mapde" => all_names.extend(t.entries().unwrap_or_default().into_iter().map(|e| e.0)),
+                    _ => {}
+                }
+            }
+        }
+        all_names.sort_by(|a, b| b.len().cmp(&a.len()).then(a.cmp(b)));
+        all_names.dedup();
+        let mut bufs: Vec<String> = vec![];
+        for n in &all_names {
+            if !bufs.iter().any(|b| b.starts_with(n.as_str())) {
+                bufs.push(n.clone());
+            }
+        }
+        let alias = |n: &str| -> &str {
+            let b = bufs.iter().find(|b| b.starts_with(n)).expect("every name has a buffer");
+            &b[..n.len()]
+        };
+        let mut mirror: TracedValues<&str> = TracedValues::new();
+        let mut n_aliased = 0usize;
+        macro_rules! mirror_check {
+            ($what:expr) => {
+                let m: Vec<(String, Val)> = mirror.iter().map(|(k, v)| (k.to_owned(), Val::from_real(v))).collect();
+                if m != reference {
+                    out.fails.push(format!("C15 the same operations on a collection whose names are slices of shared buffers give {:?} after {}, the reference map has {:?}", m, $what, reference));
+                }
+            };
+        }
         for line in lines {
             let mut t = Toks::new(line);
             match (t.next(), t.next()) {
@@ -377,6 +414,7 @@ impl Suite for Values {
                     match op {
                         "new" => {
                             cur = TracedValues::new();
+                            mirror = TracedValues::new();
                             reference.clear();
                             out.obs.push(format!("st {}", entries_tok(&[])));
                         }
@@ -384,13 +422,25 @@ impl Suite for Values {
                             let k = t.xs().expect("name");
                             let v = Val::parse(t.next().expect("val")).expect("val");
                             let old = cur.insert(k.clone(), v.to_real());
-                            let expect_old = ref_insert(&mut reference, &k, v);
+                            let expect_old = ref_insert(&mut reference, &k, v.clone());
                             if expect_old.is_some() { dup_seen = true; }
                             if old.as_ref().map(Val::from_real) != expect_old {
                                 out.fails.push(format!("C15 insert returned {:?}, reference map returned {:?}", old, expect_old));
                             }
                             out.obs.push(format!("ret {}", opt_val(old.as_ref())));
                             out.obs.push(format!("st {}", entries_tok(&entries_from_real(&cur))));
+                            let a = alias(&k);
+                            if bufs.iter().any(|b| b.as_ptr() == a.as_ptr() && b.len() != a.len()) {
+                                n_aliased += 1;
+                                if n_aliased == 1 {
+                                    out.tags.push("aliased-name-insert".into());
+                                }
+                            }
+                            let m_old = mirror.insert(a, v.to_real());
+                            if m_old.as_ref().map(Val::from_real) != old.as_ref().map(Val::from_real) {
+                                out.fails.push(format!("C15 insert into the collection with shared-buffer names returned {:?}, the owned-name collection returned {:?}", m_old, old));
+                            }
+                            mirror_check!("insert");
                         }
                         "get" => {
                             let k = t.xs().expect("name");
@@ -398,6 +448,9 @@ impl Suite for Values {
                             let expect = reference.iter().find(|e| e.0 == k).map(|e| e.1.clone());
                             if got.map(Val::from_real) != expect {
                                 out.fails.push(format!("C15 get({k:?}) = {:?}, reference map has {:?}", got, expect));
+                            }
+                            if mirror.get(alias(&k)).map(Val::from_real) != expect {
+                                out.fails.push(format!("C15 get({k:?}) on the collection with shared-buffer names = {:?}, reference map has {:?}", mirror.get(alias(&k)), expect));
                             }
                             // indexing is the same lookup (and panics exactly when the name is absent)
                             let indexed = std::panic::catch_unwind(std::panic::AssertUnwindSafe(|| Val::from_real(&cur[k.as_str()]))).ok();
@@ -448,8 +501,16 @@ impl Suite for Values {
                                 }
                             }
                             out.obs.push(format!("st {}", entries_tok(&entries_from_real(&cur))));
+                            match op {
+                                "extend" => mirror.extend(es.iter().map(|(k, v)| (alias(k), v.to_real()))),
+                                _ => mirror = es.iter().map(|(k, v)| (alias(k), v.to_real())).collect(),
+                            }
+                            mirror_check!(op);
                         }
                         "len" => {
+                            if mirror.len() != reference.len() {
+                                out.fails.push(format!("C15 len {} of the collection with shared-buffer names, {} distinct names inserted", mirror.len(), reference.len()));
+                            }
                             if cur.len() != reference.len() || cur.is_empty() != reference.is_empty() {
                                 out.fails.push(format!("C15 len {} but {} distinct names inserted", cur.len(), reference.len()));
                             }
